@@ -197,4 +197,24 @@ example : ∃ s, Reachable demoCfg s ∧ s.senderAlive = false ∧ s.rx = .done 
     s.fired = [7] ∧ s.firstAttempts = [[1], [2]] :=
   ⟨_, ⟨demo ++ [.dropSender, .rxOutcome .panicSync, .rxTake, .rxBegin], rfl⟩, by decide⟩
 
+/-- The hypotheses of the bounded-liveness theorems are satisfiable: with `retryMax = 0` the bound for flush
+    callbacks is 5; from the reachable state in which watcher 7 is attached to the pending batch, this execution
+    contains 6 receiver steps (and a sender step in between) — and indeed ends with the callback run. -/
+def liveCfg : Cfg := { cap := 4, retryMax := 0, retryStep := 700, retryCap := 1000, idleStep := 1, idleCap := 500 }
+
+example : ∃ s, Reachable liveCfg s ∧ 7 ∈ s.pendFlushW ∧
+    ∃ ls s', run (step liveCfg) s ls = some s' ∧ 4 * liveCfg.retryMax + 5 < countSel Label.isRx ls ∧ 7 ∈ s'.fired :=
+  ⟨_, ⟨[.send 1, .whenFlushed 7], rfl⟩, by decide,
+   [.rxTake, .rxBegin, .send 2, .rxOutcome (.failRetry [1]), .rxTake, .rxBegin, .rxOutcome .panicAsync], _, rfl,
+   by decide, by decide⟩
+
+/-- … and `drain_on_close`: sender dropped with one item queued; 4·0 + 7 < 8 receiver steps cannot all be taken
+    (the receiver has returned after 6), which is exactly what the theorem says: any execution that long would
+    have ended in `done` — here the receiver is `done` after 6 steps and no further receiver label is enabled. -/
+example : ∃ s, Reachable liveCfg s ∧ s.senderAlive = false ∧ s.rx ≠ .done ∧
+    ∃ ls s', run (step liveCfg) s ls = some s' ∧ s'.rx = .done ∧ s'.tornDown = false ∧
+      s'.firstAttempts = [[1]] ∧ step liveCfg s' .rxTake = none :=
+  ⟨_, ⟨[.send 1, .dropSender], rfl⟩, by decide, by decide,
+   [.rxTake, .rxBegin, .rxOutcome .ok, .rxTake, .rxBegin], _, rfl, by decide, by decide, by decide, by decide⟩
+
 end EmitModel.C08
